@@ -201,11 +201,9 @@ class HTMLUnicodeInputStream(object):
         # Deal with CR LF and surrogates split over chunk boundaries
         self._bufferedCharacter = None
 
-        # The previous chunk and the position of its start, so that unget()
-        # can move the position back across a chunk boundary
-        self._lastChunk = ""
-        self._lastChunkStart = (0, 0)
-        self._ungottenFromLastChunk = 0
+        # The most recent chunks and the positions of their starts, so that
+        # unget() can step back across chunk boundaries
+        self._previousChunks = []
 
     def openStream(self, source):
         """Produces a file object from source.
@@ -256,9 +254,12 @@ class HTMLUnicodeInputStream(object):
         if chunkSize is None:
             chunkSize = self._defaultChunkSize
 
-        self._lastChunk = self.chunk
-        self._lastChunkStart = (self.prevNumLines, self.prevNumCols)
-        self._ungottenFromLastChunk = 0
+        if self.chunk:
+            previous = self._previousChunks
+            previous.append((self.chunk, self.prevNumLines, self.prevNumCols))
+            # Only a handful of characters are ever ungotten in a row
+            while len(previous) > 1 and sum(len(item[0]) for item in previous[1:]) >= 16:
+                previous.pop(0)
         self.prevNumLines, self.prevNumCols = self._position(self.chunkSize)
 
         self.chunk = ""
@@ -385,20 +386,17 @@ class HTMLUnicodeInputStream(object):
                 # called char and charsUntil.
                 # So, just prepend the ungotten character onto the current
                 # chunk:
-                self.chunk = char + self.chunk
-                self.chunkSize += 1
-                # The character was already counted as part of the previous
-                # chunk: take it out of the position bookkeeping again
-                self._ungottenFromLastChunk += 1
-                end = len(self._lastChunk) - self._ungottenFromLastChunk
-                if end >= 0:
-                    nLines = self._lastChunk.count('\n', 0, end)
-                    lastLinePos = self._lastChunk.rfind('\n', 0, end)
-                    self.prevNumLines = self._lastChunkStart[0] + nLines
-                    if lastLinePos == -1:
-                        self.prevNumCols = self._lastChunkStart[1] + end
-                    else:
-                        self.prevNumCols = end - (lastLinePos + 1)
+                if self._previousChunks:
+                    # Step back into the previous chunk, which restores the
+                    # line and column bookkeeping as well
+                    chunk, self.prevNumLines, self.prevNumCols = self._previousChunks.pop()
+                    self.chunk = chunk + self.chunk
+                    self.chunkSize = len(self.chunk)
+                    self.chunkOffset = len(chunk) - 1
+                    assert self.chunk[self.chunkOffset] == char
+                else:
+                    self.chunk = char + self.chunk
+                    self.chunkSize += 1
             else:
                 self.chunkOffset -= 1
                 assert self.chunk[self.chunkOffset] == char
